@@ -757,7 +757,11 @@ static void c09_eviction_case(uint64_t idx)
 	for (unsigned i = 0; i < nb && ok; ++i) {
 		lzma_options_lzma o; lzma_lzma_preset(&o, 0); o.dict_size = dict[i];
 		lzma_filter f[2] = { { LZMA_FILTER_LZMA2, &o }, { LZMA_VLI_UNKNOWN, NULL } };
-		vbuf part = {0}; gen_data(&r, &part, 20000 + vrng_below(&r, 60000), -1, 4096);
+		// Blocks with a small dictionary tend to be long (their output buffer is what competes with a cached big
+		// decoder), Blocks with a big dictionary short
+		size_t psz = 20000 + vrng_below(&r, 60000);
+		if (vrng_chance(&r, 2, 3)) psz = dict[i] <= (1u << 20) ? (512u << 10) + vrng_below(&r, A.thorough ? (5u << 20) : (2u << 20)) : (64u << 10) + vrng_below(&r, 256u << 10);
+		vbuf part = {0}; gen_data(&r, &part, psz, -1, 4096);
 		lzma_block b; memset(&b, 0, sizeof(b)); b.version = 1; b.check = LZMA_CHECK_CRC32; b.filters = f;
 		size_t bound = lzma_block_buffer_bound(part.n); uint8_t *ob = malloc(bound); size_t op = 0;
 		if (lzma_block_buffer_encode(&b, NULL, part.p, part.n, ob, &op, bound) != LZMA_OK) ok = false;
